@@ -75,6 +75,40 @@ static auto make_p() {
 static long g_cases = 0, g_checks = 0, g_fail = 0, g_ok = 0, g_rej = 0, g_recovered = 0, g_values = 0; static std::string g_first;
 static void fail(const std::string& in, const std::string& what) { ++g_fail; if (g_first.empty()) g_first = "input '" + in + "': " + what; }
 
+// the fixed-capacity stacks used for cstring_buffer<N> hold values too (only trivially destructible ones qualify): a handle type without a
+// destructor but with counting copy / move constructors, and a move-only one (compile probe), parsed through cstring_buffer
+struct Handle {
+    int v = 0;
+    static long copies, moves;
+    constexpr Handle() = default; constexpr explicit Handle(int x) : v(x) {}
+    Handle(const Handle& o) : v(o.v) { ++copies; } Handle& operator=(const Handle& o) { v = o.v; ++copies; return *this; }
+    Handle(Handle&& o) noexcept : v(o.v) { o.v = -1; ++moves; } Handle& operator=(Handle&& o) noexcept { v = o.v; o.v = -1; ++moves; return *this; }
+};
+long Handle::copies = 0; long Handle::moves = 0;
+struct MoveOnlyHandle { int v = 0; MoveOnlyHandle() = default; explicit MoveOnlyHandle(int x) : v(x) {} MoveOnlyHandle(MoveOnlyHandle&&) = default; MoveOnlyHandle& operator=(MoveOnlyHandle&&) = default; MoveOnlyHandle(const MoveOnlyHandle&) = delete; MoveOnlyHandle& operator=(const MoveOnlyHandle&) = delete; };
+static_assert(std::is_trivially_destructible_v<Handle> && std::is_trivially_destructible_v<MoveOnlyHandle>);
+template<class H> static auto make_h() {
+    static constexpr nterm<H> sum("sum");
+    return parser(sum, terms('1', '2', '+'), nterms(sum), rules(
+        sum('1') >= [](skip) { return H(1); }, sum('2') >= [](skip) { return H(2); },
+        sum(sum, '+', sum) >= [](H&& a, skip, H&& b) { return H(a.v + b.v); }));
+}
+template<size_t N, class P> static int via_cstring(const P& p, const std::string& in) { char arr[N]; for (size_t i = 0; i + 1 < N; ++i) arr[i] = in[i]; arr[N - 1] = 0; auto r = p.parse(cstring_buffer<N>(arr)); return r ? r->v : -1; }
+template<class P> static int via_cstring_any(const P& p, const std::string& in) { switch (in.size()) { case 0: return via_cstring<1>(p, in); case 1: return via_cstring<2>(p, in); case 2: return via_cstring<3>(p, in); case 3: return via_cstring<4>(p, in); case 4: return via_cstring<5>(p, in); case 5: return via_cstring<6>(p, in); case 6: return via_cstring<7>(p, in); default: return via_cstring<8>(p, in); } }
+static void run_handles(long& cases, long& checks, long& fails, std::string& first) {
+    static const auto ph = make_h<Handle>(); static const auto pm = make_h<MoveOnlyHandle>();
+    std::vector<std::string> in{""}; for (size_t lo = 0, l = 0; l < 7; ++l) { size_t hi = in.size(); for (size_t i = lo; i < hi; ++i) for (char c : {'1', '2', '+'}) in.push_back(in[i] + c); lo = hi; }
+    for (const std::string& s : in) {
+        ++cases;
+        int want = -1; if (s.size() % 2 == 1) { want = 0; for (size_t i = 0; i < s.size(); ++i) { if (i % 2 == 0) { if (s[i] == '+') { want = -1; break; } want += s[i] - '0'; } else if (s[i] != '+') { want = -1; break; } } }
+        Handle::copies = 0; int got = via_cstring_any(ph, s); long c1 = Handle::copies;
+        Handle::copies = 0; auto r = ph.parse(string_buffer(std::string(s))); long c2 = Handle::copies; int got2 = r ? r->v : -1;
+        int got3 = via_cstring_any(pm, s);
+        ++checks; if (got != want || got2 != want || got3 != want) { ++fails; if (first.empty()) first = "handle grammar, input '" + s + "': cstring_buffer gives " + std::to_string(got) + ", string_buffer " + std::to_string(got2) + ", move-only via cstring_buffer " + std::to_string(got3) + ", expected " + std::to_string(want); }
+        ++checks; if (c1 != 0 || c2 != 0) { ++fails; if (first.empty()) first = "handle grammar, input '" + s + "': " + std::to_string(c1) + " copies of semantic values through cstring_buffer (fixed stacks), " + std::to_string(c2) + " through string_buffer; values must be moved"; }
+    }
+}
+
 int main(int argc, char** argv) {
     int n = argc > 1 ? std::atoi(argv[1]) : 5;
     static const auto p = make_p();
@@ -110,6 +144,7 @@ int main(int argc, char** argv) {
             if (R.consumed[id] > 1) { fail(in, "value " + std::to_string(id) + " handed to " + std::to_string(R.consumed[id]) + " functor calls"); break; }
         }
     }
+    run_handles(g_cases, g_checks, g_fail, g_first);
     std::string esc; for (char c : g_first) { if (c == '"' || c == '\\') esc += '\\'; esc += c; }
     std::printf("{\"cases\": %ld, \"checks\": %ld, \"failures\": %ld, \"accepted\": %ld, \"rejected\": %ld, \"accepted_after_recovery\": %ld, \"values_tracked\": %ld, \"first_failure\": \"%s\"}\n", g_cases, g_checks, g_fail, g_ok, g_rej, g_recovered, g_values, esc.c_str());
     return g_fail ? 1 : 0;
